@@ -34,6 +34,27 @@ var c12Names = []struct{ name, body string }{
 	{"y.ptxt", "jj kk ll jj kk"},
 	{"e.txt", ""},
 	{"0.txt", "mm nn oo mm nn"}, // sorts before every directory component: visited first by the walk
+	{"dir.txt", "\x00DIR"},       // a DIRECTORY whose name ends in txt (body marker: created with Mkdir)
+}
+
+// large files (only offered at variant depth): bigger than any shipped corpus file (62 KB) and than
+// the usual power-of-two buffer sizes
+var c12Big = []struct{ name, body string }{
+	{"big64k.txt", c12BigBody(66000)},
+	{"big128k.txt", c12BigBody(135000)},
+}
+
+func c12BigBody(n int) string {
+	var sb strings.Builder
+	for i := 0; sb.Len() < n; i++ {
+		sb.WriteString(vFillerWord(i % 9000))
+		if i%13 == 12 {
+			sb.WriteByte('\n')
+		} else {
+			sb.WriteByte(' ')
+		}
+	}
+	return sb.String()
 }
 
 var c12Comps = []string{"License", "Foo", "sub", "deep"}
@@ -79,10 +100,15 @@ func c12Trees(c *vrep.Ctx) {
 		for _, n := range c12Names {
 			options = append(options, c12File{d, n.name, n.body})
 		}
+		if d == 3 {
+			for _, n := range c12Big {
+				options = append(options, c12File{d, n.name, n.body})
+			}
+		}
 	}
 	leaves := []string{"corp", "nest/ed"}
 	queries := [][]byte{[]byte("zqa aa bb cc aa bb zqb"), []byte("zqa cc bb aa cc bb aa"), []byte("gg hh ii gg hh\njj kk ll jj kk"), []byte("zqa")}
-	c.R.Rule = fmt.Sprintf("all sets of <=%d files drawn from depth 1..5 x names {a.txt, b.txt, x.md, txt, y.ptxt, empty e.txt, 0.txt (sorts before the directories)} (%d options), built in a private temp dir, x %d spellings of the directory (absolute/relative, ./ prefix, trailing separator, doubled separator, through .., and '.', './', '../name' with the directory as cwd) x {single, multi-component} directory; LoadLicenses must not panic or fail; files shallower than category/name/variant or not ending in 'txt' are ignored; if every remaining file sits at depth 3 the corpus (keys and word sequences, white-box) and Match on a query menu equal a classifier built by AddContent per file; non-trivial = distinct (tree, spelling) cases with at least one loadable file", maxFiles, len(options), len(c12Spellings))
+	c.R.Rule = fmt.Sprintf("all sets of <=%d files drawn from depth 1..5 x names {a.txt, b.txt, x.md, txt, y.ptxt, empty e.txt, 0.txt (sorts before the directories), a directory named dir.txt} plus 66 KB and 135 KB files at variant depth (%d options), built in a private temp dir, x %d spellings of the directory (absolute/relative, ./ prefix, trailing separator, doubled separator, through .., and '.', './', '../name' with the directory as cwd) x {single, multi-component} directory; LoadLicenses must not panic or fail; files shallower than category/name/variant or not ending in 'txt' are ignored; if every remaining file sits at depth 3 the corpus (keys and word sequences, white-box) and Match on a query menu equal a classifier built by AddContent per file; non-trivial = distinct (tree, spelling) cases with at least one loadable file", maxFiles, len(options), len(c12Spellings))
 	c.Bound("max_files", maxFiles)
 	c.Bound("spellings", len(c12Spellings))
 	tmp, err := os.MkdirTemp("", "verif-c12-")
@@ -111,6 +137,13 @@ func c12Trees(c *vrep.Ctx) {
 		if r.Scout() {
 			return
 		}
+		for _, f := range files {
+			// the large files are combined with two spellings only (absolute, '.'): they cost 100x
+			if strings.HasPrefix(f.name, "big") && sp.name != "absolute" && sp.name != "dot (cwd is the directory)" {
+				r.Note = map[string]interface{}{"skip": true}
+				return
+			}
+		}
 		n++
 		parent := filepath.Join(tmp, fmt.Sprintf("t%d", n))
 		root := filepath.Join(parent, leaf)
@@ -123,8 +156,12 @@ func c12Trees(c *vrep.Ctx) {
 		for _, f := range files {
 			p := filepath.Join(root, f.rel())
 			os.MkdirAll(filepath.Dir(p), 0o755)
-			os.WriteFile(p, []byte(f.body), 0o644)
 			desc = append(desc, f.rel())
+			if f.body == "\x00DIR" {
+				os.MkdirAll(p, 0o755) // a directory, not a file: never a license
+				continue
+			}
+			os.WriteFile(p, []byte(f.body), 0o644)
 			if !strings.HasSuffix(f.name, "txt") || f.depth < 3 {
 				continue // must be ignored
 			}
@@ -171,6 +208,10 @@ func c12Trees(c *vrep.Ctx) {
 		r.Note = map[string]interface{}{"id": fmt.Sprintf("{%s} in %q spelled %s", strings.Join(desc, ", "), leaf, sp.name), "msg": msg, "loadable": loadable, "cls": c12Class(files, leaf, sp.name)}
 	}
 	c.Run(vSplitExplorer(c, 0, 2), body, func(r *vx.Run) {
+		if r.Note["skip"] != nil {
+			c.R.Evaluations--
+			return
+		}
 		id := r.Note["id"].(string)
 		if r.Note["loadable"].(int) > 0 {
 			c.Nontrivial(id)
